@@ -28,6 +28,7 @@ func init() {
 type leafCase struct {
 	val    ssa.Value
 	guards []guard
+	pred   *ssa.BasicBlock // block the value flows from into the innermost phi (nil if v is not a phi)
 }
 
 // expandCases expands nested phis into (guards, value) leaves.
@@ -53,7 +54,13 @@ func expandCases(v ssa.Value, inherited []guard, depth int) []leafCase {
 		if iff, ok := terminator(pred).(*ssa.If); ok && pred.Succs[0] != pred.Succs[1] {
 			gs = append(gs, guard{Cond: iff.Cond, Truth: pred.Succs[0] == phi.Block(), If: iff})
 		}
-		out = append(out, expandCases(e, gs, depth+1)...)
+		sub := expandCases(e, gs, depth+1)
+		for i := range sub {
+			if sub[i].pred == nil {
+				sub[i].pred = pred
+			}
+		}
+		out = append(out, sub...)
 	}
 	return out
 }
